@@ -10,6 +10,7 @@ structure CS where
   desc : String := ""
   kind : String := ""
   setstate : Nat := 0
+  head : Bytes := []      -- the first bytes of the offered blob (its outermost NV_HEADER)
 
 def mism (c : CS) (msg : String) : CS :=
   { c with rep := { c.rep with mismatches := c.rep.mismatches ++ [s!"line {c.line}: {msg}"] } }
@@ -21,7 +22,7 @@ def mutClass (d : String) : String := ((d.splitOn "@").headD d).takeWhile (fun c
 def step (c : CS) (l : Line) : CS :=
   let c := { c with line := c.line + 1 }
   match l.kind with
-  | "mut" => { c with desc := l.str "desc", kind := l.str "kind", rep := { c.rep with events := c.rep.events + 1 } }
+  | "mut" => { c with desc := l.str "desc", kind := l.str "kind", head := l.bytes "head", rep := { c.rep with events := c.rep.events + 1 } }
   | "door1" =>
       let acc : Bool := l.nat "setstate" == 0
       let c := branch c s!"door1/{c.kind}/{mutClass c.desc}/accepted={acc}"
@@ -36,6 +37,13 @@ def step (c : CS) (l : Line) : CS :=
       -- after an acceptance MainInit succeeds and the TPM answers commands
       let c := if acc ∧ (l.nat "maininit" ≠ 0 ∨ l.nat "alive" ≠ 1) then
                  mism c s!"SPEC[accepted-blob-does-not-start] SetState accepted the {c.kind} blob ({c.desc}) but MainInit={l.nat "maininit"} alive={l.nat "alive"}" else c
+      -- the outermost header under the header model: what the model refuses must not be accepted
+      let hv := if c.kind = "vol" then Model.Blob.headerRefusal c.head Gen.VOLATILE_STATE_MAGIC Gen.VOLATILE_STATE_VERSION
+                else Model.Blob.headerRefusal c.head Gen.PERSISTENT_ALL_MAGIC Gen.PERSISTENT_ALL_VERSION
+      let c := match hv with
+        | some why => let c := branch c s!"header/{c.kind}/{repr why}/accepted={acc}"
+                      if acc then mism c s!"SPEC[bad-header-accepted] SetState accepted a {c.kind} blob ({c.desc}) whose outermost header must be refused ({repr why}): {hexOfBytes c.head}" else c
+        | none => c
       -- cross-type blobs are never accepted
       let c := if acc ∧ (c.desc = "vol-as-perm" ∨ c.desc = "perm-as-vol") then mism c s!"SPEC[cross-type-accepted] {c.desc} accepted" else c
       c
